@@ -3,16 +3,13 @@
    matched segment-wise (DESIGN 3.3): literal = equal segment, ([^/]+?) = one
    non-empty segment, (re) = one segment fully matching re (oracle rxfull),
    a trailing dot-star group takes everything; the final optional group is the rest.
-   '.' does not match a newline, so the rest must be newline-free.
+   The expression is compiled with (?s) (repair F8), so '.' matches every byte.
    A dot-star group that is not the last token is outside the modelled fragment
    ([jsr_match] answers None for it). Definitions only. *)
 From Model Require Import Str Sexp Http Template Table Curly.
 
 Section WithOracles.
 Variable O : oracles.
-
-Definition newline : ascii := ascii_of_nat 10.
-Definition no_newline (s : str) : bool := forallb (fun c => negb (Ascii.eqb c newline)) s.
 
 (* the maximal run of non-'/' bytes and what follows *)
 Fixpoint span_seg (p : str) : str * str :=
@@ -27,7 +24,7 @@ Fixpoint jsr_match (toks : list etok) (p : str) : option (list str * str) :=
   | [] =>
       match p with
       | [] => Some ([], [])
-      | c :: _ => if Ascii.eqb c slash && no_newline p then Some ([], p) else None
+      | c :: _ => if Ascii.eqb c slash then Some ([], p) else None
       end
   | t :: toks' =>
       match p with
@@ -37,7 +34,7 @@ Fixpoint jsr_match (toks : list etok) (p : str) : option (list str * str) :=
           match t with
           | EAll =>
               match toks' with
-              | [] => if no_newline p1 then Some ([p1], []) else None
+              | [] => Some ([p1], [])
               | _ => None       (* wildcard in the middle: not modelled *)
               end
           | _ =>
